@@ -261,3 +261,109 @@ def rule_wsc_skip(repo, res):
                                             "t.is_WSC() true): a comment or line break at this grammar position ends the skip, "
                                             "so the same label with and without the comment parses differently"))
     res.floor("skip-helper token loops", seen, 2)
+
+
+def rule_idx_guard(repo, res):
+    """IDX-GUARD: on the way from an entry point to the lexer (pvl.load/loads/loadu, the parsers' parse(), lexer()), a
+    constant-index subscript `t[0]` / `t[-1]` of a text -- a parameter of the function or a local bound to a string
+    operation on one (re.sub, replace, strip, decode, slicing) -- is reached only where a test of *that* name's
+    non-emptiness holds (`t and ...`, `if t:`, `len(t) > 0`, `t != ""`).  Otherwise the empty text, or a text the
+    preceding rewrite empties (a lone dash continuation), makes the loader fail with IndexError instead of the documented
+    LexerError / ParseError."""
+    import ast
+    from .core import Finding, norm
+    sites = 0
+    targets = []
+    for mname, fnames in (("__init__", ("load", "loads", "loadu", "get_text_from", "decode_by_char")), ("new", ("load", "loads", "loadu")),
+                          ("lexer", ("lexer",))):
+        if mname in repo.modules:
+            for f in fnames:
+                if f in repo.module(mname).functions:
+                    targets.append((f"{mname}.{f}", repo.module(mname).functions[f]))
+    for cname in sorted(repo.subclasses("PVLParser")):
+        fn = repo.classes[cname].methods.get("parse")
+        if fn is not None:
+            targets.append((f"{cname}.parse", fn))
+    STR_OPS = {"sub", "subn", "replace", "strip", "lstrip", "rstrip", "decode", "read", "read_text", "join", "format", "lower", "upper", "casefold"}
+    for label, fn in targets:
+        params = {a.arg for a in fn.args.posonlyargs + fn.args.args if a.arg not in ("self", "cls")}
+        texts = set(params)
+        for a in ast.walk(fn):
+            if isinstance(a, ast.Assign) and len(a.targets) == 1 and isinstance(a.targets[0], ast.Name):
+                v = a.value
+                if (isinstance(v, ast.Call) and isinstance(v.func, ast.Attribute) and v.func.attr in STR_OPS) or \
+                        (isinstance(v, ast.Subscript) and isinstance(v.slice, ast.Slice)) or isinstance(v, ast.JoinedStr):
+                    texts.add(a.targets[0].id)
+        for sub in [x for x in ast.walk(fn) if isinstance(x, ast.Subscript) and isinstance(x.value, ast.Name) and x.value.id in texts
+                    and isinstance(x.ctx, ast.Load)]:
+            idx = sub.slice
+            if isinstance(idx, ast.UnaryOp) and isinstance(idx.op, ast.USub) and isinstance(idx.operand, ast.Constant):
+                pass
+            elif isinstance(idx, ast.Constant) and isinstance(idx.value, int):
+                pass
+            else:
+                continue
+            name = sub.value.id
+            sites += 1
+
+            def nonempty_test(t, pol=True):
+                """does test *t* (with polarity) establish that *name* is non-empty?"""
+                if isinstance(t, ast.UnaryOp) and isinstance(t.op, ast.Not):
+                    return nonempty_test(t.operand, not pol)
+                if isinstance(t, ast.BoolOp) and isinstance(t.op, ast.And) and pol:
+                    return any(nonempty_test(v, True) for v in t.values)
+                if isinstance(t, ast.BoolOp) and isinstance(t.op, ast.Or) and not pol:
+                    return any(nonempty_test(v, False) for v in t.values)
+                if isinstance(t, ast.Name) and t.id == name:
+                    return pol
+                if isinstance(t, ast.Call) and norm(t.func) == "len" and t.args and isinstance(t.args[0], ast.Name) and t.args[0].id == name:
+                    return pol
+                if isinstance(t, ast.Compare) and len(t.ops) == 1:
+                    l, r, op = t.left, t.comparators[0], t.ops[0]
+                    is_len = lambda e: isinstance(e, ast.Call) and norm(e.func) == "len" and e.args and isinstance(e.args[0], ast.Name) and e.args[0].id == name
+                    if is_len(l) and isinstance(r, ast.Constant) and isinstance(r.value, int):
+                        if isinstance(op, (ast.Gt, ast.GtE, ast.NotEq)) and pol:
+                            return (r.value >= 0 and isinstance(op, ast.Gt)) or (r.value >= 1 and isinstance(op, ast.GtE)) or (r.value == 0 and isinstance(op, ast.NotEq))
+                        if isinstance(op, ast.Eq) and r.value == 0 and not pol:
+                            return True
+                    if isinstance(l, ast.Name) and l.id == name and isinstance(r, ast.Constant) and r.value == "":
+                        return (isinstance(op, ast.NotEq) and pol) or (isinstance(op, ast.Eq) and not pol)
+                    if isinstance(l, ast.Name) and l.id == name and isinstance(op, (ast.In, ast.Eq)) and pol and not (isinstance(r, ast.Constant) and r.value == ""):
+                        return isinstance(op, ast.Eq) and isinstance(r, ast.Constant) and isinstance(r.value, str) and r.value != ""
+                return False
+            guarded = False
+            x = sub
+            while x is not None and x is not fn:
+                p = getattr(x, "_parent", None)
+                if isinstance(p, ast.BoolOp) and isinstance(p.op, ast.And) and x in p.values:
+                    if any(nonempty_test(v, True) for v in p.values[:p.values.index(x)]):
+                        guarded = True
+                if isinstance(p, (ast.If, ast.While)) and x is not p.test:
+                    if x in p.body and nonempty_test(p.test, True):
+                        guarded = True
+                    if x in p.orelse and nonempty_test(p.test, False):
+                        guarded = True
+                if isinstance(p, ast.IfExp) and x is not p.test:
+                    if (x is p.body and nonempty_test(p.test, True)) or (x is p.orelse and nonempty_test(p.test, False)):
+                        guarded = True
+                if isinstance(p, ast.Try) and x in p.body and any(h.type is None or "IndexError" in norm(h.type) or norm(h.type) in ("Exception", "LookupError")
+                                                                   for h in p.handlers):
+                    guarded = True
+                # an earlier guard clause of the same block: `if not t: return ...`
+                if isinstance(p, (ast.FunctionDef, ast.If, ast.For, ast.While, ast.With, ast.Try)):
+                    for field in ("body", "orelse"):
+                        blk = getattr(p, field, None)
+                        if isinstance(blk, list) and x in blk:
+                            for st in blk[:blk.index(x)]:
+                                if isinstance(st, ast.If) and st.body and isinstance(st.body[-1], (ast.Return, ast.Raise, ast.Continue, ast.Break)) \
+                                        and nonempty_test(st.test, False):
+                                    guarded = True
+                x = p
+            res.oblige("IDX-GUARD", f"{label}: `{norm(sub)}` is reached only when `{name}` is known to be non-empty", ok=guarded)
+            if not guarded:
+                res.add(Finding("IDX-GUARD", label, f"`{norm(sub)}` without a test of `{name}`",
+                                f"{label} reads `{norm(sub)}` although nothing on the way establishes that `{name}` is not empty: for the "
+                                "empty text (or one the preceding rewrite empties, e.g. a lone dash continuation) the loader fails with "
+                                "IndexError instead of LexerError / ParseError", where=f"pvl/{label.split('.')[0] if label[0].islower() else 'parser'}.py:{sub.lineno}"))
+    res.oblige("IDX-GUARD", f"{len(targets)} entry-path functions examined, {sites} constant-index subscripts of texts", ok=True, nontrivial=False)
+    res.floor("entry-path functions for IDX-GUARD", len(targets), 6)
